@@ -10,10 +10,14 @@ use crate::rng::Rng;
 pub enum ReadPlan {
     Bytes,
     WriteTo,
+    /// write_to() into a sink that accepts at most this many bytes per write call
+    WriteToShort(usize),
     TextUtf8,
     ReadToEnd,
     /// explicit read() calls with buffer sizes cycling through the list
     Loop { sizes: Vec<usize>, via_split: bool },
+    /// explicit read() calls on `text_reader()` (only meaningful for ASCII payloads declared as UTF-8)
+    TextReader { sizes: Vec<usize> },
 }
 
 impl ReadPlan {
@@ -21,9 +25,11 @@ impl ReadPlan {
         match self {
             ReadPlan::Bytes => "bytes()".into(),
             ReadPlan::WriteTo => "write_to()".into(),
+            ReadPlan::WriteToShort(k) => format!("write_to(sink accepting <= {k} bytes per write)"),
             ReadPlan::TextUtf8 => "text_utf8()".into(),
             ReadPlan::ReadToEnd => "read_to_end()".into(),
             ReadPlan::Loop { sizes, via_split } => format!("read-loop{:?}{}", sizes, if *via_split { " via split()" } else { "" }),
+            ReadPlan::TextReader { sizes } => format!("text_reader-loop{:?}", sizes),
         }
     }
     pub fn is_loop(&self) -> bool {
@@ -36,7 +42,13 @@ pub const READ_SIZES: &[usize] = &[0, 1, 2, 3, 7, 4096, 65_536, 1 << 20];
 pub fn random_plan(rng: &mut Rng) -> ReadPlan {
     match rng.below(9) {
         0 => ReadPlan::Bytes,
-        1 => ReadPlan::WriteTo,
+        1 => {
+            if rng.bool() {
+                ReadPlan::WriteTo
+            } else {
+                ReadPlan::WriteToShort(*rng.pick(&[1usize, 7, 1000, 8191, 70_000]))
+            }
+        }
         2 => ReadPlan::TextUtf8,
         3 => ReadPlan::ReadToEnd,
         _ => {
@@ -208,6 +220,32 @@ pub fn consume(resp: Response, plan: &ReadPlan, extra_after_end: usize) -> Consu
                 },
             }
         }
+        ReadPlan::WriteToShort(k) => {
+            struct Short(Vec<u8>, usize);
+            impl std::io::Write for Short {
+                fn write(&mut self, buf: &[u8]) -> io::Result<usize> {
+                    let n = buf.len().min(self.1);
+                    self.0.extend_from_slice(&buf[..n]);
+                    Ok(n)
+                }
+                fn flush(&mut self) -> io::Result<()> {
+                    Ok(())
+                }
+            }
+            let mut sink = Short(Vec::new(), *k);
+            let res = resp.write_to(&mut sink);
+            let v = sink.0;
+            match res {
+                Ok(n) => {
+                    let mut c = simple(Ok(v));
+                    if n as usize != c.delivered.len() {
+                        c.end = End::Error(format!("verif: write_to returned {n} but the sink received {} bytes", c.delivered.len()));
+                    }
+                    c
+                }
+                Err(e) => Consumed { delivered: v, end: End::Error(format!("{e:?}")), read_calls: 0, short_reads: 0, interrupted: 0, after_end: vec![], after_end_bytes: vec![] },
+            }
+        }
         ReadPlan::TextUtf8 => simple(resp.text_utf8().map(|s| s.into_bytes()).map_err(|e| format!("{e:?}"))),
         ReadPlan::ReadToEnd => {
             let mut resp = resp;
@@ -224,6 +262,10 @@ pub fn consume(resp: Response, plan: &ReadPlan, extra_after_end: usize) -> Consu
                     after_end_bytes: vec![],
                 },
             }
+        }
+        ReadPlan::TextReader { sizes } => {
+            let mut reader = resp.text_reader();
+            read_loop(&mut reader, sizes, extra_after_end, |_, _| true)
         }
         ReadPlan::Loop { sizes, via_split } => {
             if *via_split {
